@@ -22,7 +22,7 @@ def builder_slots():
     return out, n
 
 
-NATIVE = r'''
+NATIVE_PREFIX = r'''
 #include <cstdio>
 #include <cstdlib>
 #include <cstring>
@@ -44,6 +44,9 @@ NATIVE = r'''
 #include "awkward/builder/ArrayBuilderOptions.h"
 #include "awkward/builder/Builder.h"
 #include "awkward/builder/RecordBuilder.h"
+#include "awkward/builder/ListBuilder.h"
+#include "awkward/builder/OptionBuilder.h"
+#include "awkward/builder/GrowableBuffer.h"
 #undef private
 #undef protected
 using namespace awkward;
@@ -75,6 +78,9 @@ public:
   const BuilderPtr endrecord() override { return shared_from_this(); }
   const BuilderPtr append(const ContentPtr&, int64_t) override { n++; return shared_from_this(); }
 };
+'''
+
+NATIVE = NATIVE_PREFIX + r'''
 int main(int argc, char** argv) {
   // argv: k length nextindex nexttotry begun  len_0 .. len_{k-1}
   int k = atoi(argv[1]); int64_t length = atoll(argv[2]), nextindex = atoll(argv[3]), nexttotry = atoll(argv[4]); bool begun = atoi(argv[5]) != 0;
@@ -191,3 +197,183 @@ def jobs(tier):
         for pat in itertools.product((0, 1), repeat=k):
             js.append((h_record_endrecord, (k, pat), 600))
     return js
+
+
+# ------------------------------------------------------------------------------------------------ ListBuilder / OptionBuilder: one step with an opaque content builder
+LB = 'src/libawkward/builder/ListBuilder.cpp'
+OB = 'src/libawkward/builder/OptionBuilder.cpp'
+GB = 'src/libawkward/builder/GrowableBuffer.cpp'
+
+
+def _child_stubs(slots, kids_len_off=32):
+    """opaque content builder: {vptr, weak_this(16), ..., length @32}; every value-appending call adds one entry and returns itself"""
+    def kid(p):
+        cs = [(g, q) for g, q in ptr_cases(p) if q.obj is not None]
+        if len(cs) != 1:
+            raise Unsupported('content builder pointer is not a single object')
+        return cs[0][1].obj
+
+    def s_length(eng, fr, ins, st, name, argv):
+        return st.mem.o[kid(argv[0])].cells[kids_len_off][0]
+
+    def s_active(eng, fr, ins, st, name, argv):
+        return z3.BitVecVal(0, 1)
+
+    def s_append(eng, fr, ins, st, name, argv):
+        sret, selfp = argv[0], argv[1]
+        nm = kid(selfp)
+        o = st.mem.o[nm]
+        o.cells[kids_len_off] = (z3.simplify(o.cells[kids_len_off][0] + 1), 8)
+        st.trace = st.trace + ((st.pc, name, tuple(argv[2:])),)
+        rec = st.mem.o[sret.obj]
+        rec.cells[sret.off] = (Ptr(nm, 0), 8)
+        rec.cells[sret.off + 8] = (NULL, 8)
+        return None
+    out = {'vf$slot%d' % slots['6lengthEv']: s_length, 'vf$slot%d' % slots['6activeEv']: s_active}
+    for frag in ('4nullEv', '7integerEl', '7booleanEb', '4realEd'):
+        out['vf$slot%d' % slots[frag]] = s_append
+    return out
+
+
+def _growable(m, name, length, reserved, fo_base, cells, objname):
+    """GrowableBuffer<int64_t> at fo_base: {options(16), ptr_(16), length_, reserved_}; buffer contents symbolic"""
+    buf = m.array(name, ('i', 64), reserved)
+    cells.update({fo_base: (BV(8), 8), fo_base + 8: (z3.FPVal(1.5, z3.Float64()), 8), fo_base + 16: (buf, 8), fo_base + 24: (NULL, 8), fo_base + 32: (length, 8), fo_base + 40: (reserved, 8)})
+    return z3.Array(name, z3.BitVecSort(64), z3.BitVecSort(64))
+
+
+@guard
+def h_list_endlist():
+    """ListBuilder::endlist with an open list whose content builder holds L entries: the offsets grow by exactly one entry, equal to L (so the list
+    just closed covers the entries appended since the previous offset), earlier offsets are untouched, the list is closed"""
+    from .cpp01 import struct_of
+    slots, nslots = builder_slots()
+    mod = module_of(LB)
+    fo, sz, al, fields = mod.types.struct_layout(struct_of(mod, '_ZN7awkward11ListBuilder7endlistEv'))
+    stubs = dict(COMMON_STUBS)
+    stubs.update(_child_stubs(slots))
+    stubs['_ZN7awkward6kernel6mallocI*'] = None
+    del stubs['_ZN7awkward6kernel6mallocI*']
+    m = MCtx([LB, GB], unwind=8, stubs=stubs)
+    m.record('fakevt', {8 * j: (Ptr(('func', 'vf$slot%d' % j), 0), 8) for j in range(nslots)}, const=True)
+    n, res, L = m.bv('noffsets'), m.bv('reserved'), m.bv('contentlength')
+    m.assume(n >= 1, n < res, res <= 2 ** 20, L >= 0, L <= 2 ** 40)          # room for one more entry: reallocation is GrowableBuffer's own step (checked separately)
+    m.record('content', {0: (Ptr('fakevt', 0), 8), 8: (NULL, 8), 16: (NULL, 8), 32: (L, 8)})
+    m.record('ctrl', {0: (NULL, 8), 8: (z3.BitVecVal(1, 32), 4), 12: (z3.BitVecVal(1, 32), 4)})
+    st0 = State({}, m.mem, z3.BoolVal(True))
+    vt = m.eng.global_ptr(st0, '@_ZTVN7awkward11ListBuilderE', mod)
+    cells = {0: (Ptr(vt.obj, 16), 8), 8: (Ptr('lb', 0), 8), 16: (Ptr('ctrl', 0), 8), fo[1]: (BV(8), 8), fo[1] + 8: (z3.FPVal(1.5, z3.Float64()), 8),
+             fo[3]: (Ptr('content', 0), 8), fo[3] + 8: (NULL, 8), fo[4]: (z3.BitVecVal(1, 8), 1)}
+    a0 = _growable(m, 'offsets', n, res, fo[2], cells, 'lb')
+    this = m.record('lb', cells)
+    m.record('ret', {})
+    out = m.call('_ZN7awkward11ListBuilder7endlistEv', [Ptr('ret', 0), this])
+    a1 = m.mem.o['offsets'].arr
+    j = z3.BitVec('j!pos', 64)
+    obls = [('closing an open list does not raise', out.raised),
+            ('the offsets grow by one entry', m.cell('lb', fo[2] + 32) != n + 1),
+            ('the new offset is the number of entries the content builder holds', z3.Select(a1, n) != L),
+            ('earlier offsets are untouched', z3.And(j >= 0, j < n, z3.Select(a1, j) != z3.Select(a0, j))),
+            ('the list is closed', m.cell('lb', fo[4]) != 0)]
+    return mdischarge(m, 'ListBuilder::endlist', obls, [], replay=step_replay('list', n, L), prefer=[n <= 6, res <= 8, L <= 50], extra=dict(bounds='any number of offsets below the reserved capacity <= 2^20, any content length'))
+
+
+@guard
+def h_option_step(what):
+    """OptionBuilder::null / integer with an inactive content builder holding L entries: null appends -1 to the index and leaves the content alone;
+    integer(x) hands x to the content and appends L (the position the value just got) to the index; earlier index entries are untouched"""
+    from .cpp01 import struct_of
+    slots, nslots = builder_slots()
+    mod = module_of(OB)
+    sym = {'null': '_ZN7awkward13OptionBuilder4nullEv', 'integer': '_ZN7awkward13OptionBuilder7integerEl'}[what]
+    fo, sz, al, fields = mod.types.struct_layout(struct_of(mod, sym))
+    stubs = dict(COMMON_STUBS)
+    stubs.update(_child_stubs(slots))
+    m = MCtx([OB, GB], unwind=8, stubs=stubs)
+    m.record('fakevt', {8 * j: (Ptr(('func', 'vf$slot%d' % j), 0), 8) for j in range(nslots)}, const=True)
+    n, res, L, x = m.bv('nindex'), m.bv('reserved'), m.bv('contentlength'), m.bv('x')
+    m.assume(n >= 0, n < res, res <= 2 ** 20, L >= 0, L <= 2 ** 40)
+    m.record('content', {0: (Ptr('fakevt', 0), 8), 8: (NULL, 8), 16: (NULL, 8), 32: (L, 8)})
+    m.record('ctrl', {0: (NULL, 8), 8: (z3.BitVecVal(1, 32), 4), 12: (z3.BitVecVal(1, 32), 4)})
+    st0 = State({}, m.mem, z3.BoolVal(True))
+    vt = m.eng.global_ptr(st0, '@_ZTVN7awkward13OptionBuilderE', mod)
+    cells = {0: (Ptr(vt.obj, 16), 8), 8: (Ptr('ob', 0), 8), 16: (Ptr('ctrl', 0), 8), fo[1]: (BV(8), 8), fo[1] + 8: (z3.FPVal(1.5, z3.Float64()), 8),
+             fo[3]: (Ptr('content', 0), 8), fo[3] + 8: (NULL, 8)}
+    a0 = _growable(m, 'index', n, res, fo[2], cells, 'ob')
+    this = m.record('ob', cells)
+    m.record('ret', {})
+    out = m.call(sym, [Ptr('ret', 0), this] + ([x] if what == 'integer' else []))
+    a1 = m.mem.o['index'].arr
+    j = z3.BitVec('j!pos', 64)
+    L1 = m.mem.o['content'].cells[32][0]
+    calls = [(pc, nm, a) for pc, nm, a in out.trace]
+    obls = [('the step does not raise', out.raised), ('the index grows by one entry', m.cell('ob', fo[2] + 32) != n + 1),
+            ('earlier index entries are untouched', z3.And(j >= 0, j < n, z3.Select(a1, j) != z3.Select(a0, j)))]
+    if what == 'null':
+        obls += [('a missing value is index -1', z3.Select(a1, n) != -1), ('the content builder is left alone', L1 != L)]
+    else:
+        obls += [('the new index entry is the position the value got in the content', z3.Select(a1, n) != L), ('the content builder received exactly one value', L1 != L + 1),
+                 ('the content builder received the value itself', z3.Not(z3.Or([z3.And(pc, a[0] == x) for pc, nm, a in calls if a] + [z3.BoolVal(False)])))]
+    return mdischarge(m, 'OptionBuilder::%s' % what, obls, [], replay=step_replay(what, n, L, x), prefer=[n <= 6, res <= 8, L <= 50, x >= -100, x <= 100], extra=dict(bounds='any index length below the reserved capacity <= 2^20, any content length, any value'))
+
+
+NATIVE_STEP = NATIVE_PREFIX + r'''
+int main(int argc, char** argv) {
+  // argv: what(list|null|integer) n L x
+  std::string what = argv[1]; int64_t n = atoll(argv[2]), L = atoll(argv[3]), x = atoll(argv[4]);
+  ArrayBuilderOptions opts(8, 1.5);
+  GrowableBuffer<int64_t> buf(opts);
+  for (int64_t i = 0; i < n; i++) buf.append(1000 + i);
+  std::shared_ptr<Count> content = std::make_shared<Count>(L);
+  try {
+    if (what == "list") {
+      std::shared_ptr<ListBuilder> b = std::make_shared<ListBuilder>(opts, buf, content, true);
+      b->endlist();
+      printf("{\"outcome\": \"ok\", \"len\": %lld, \"last\": %lld, \"first_ok\": %d, \"begun\": %d, \"content\": %lld}\n", (long long)b->offsets_.length(), (long long)b->offsets_.getitem_at_nowrap(n),
+             (int)(n == 0 || b->offsets_.getitem_at_nowrap(0) == 1000), (int)b->begun_, (long long)content->n);
+    } else {
+      std::shared_ptr<OptionBuilder> b = std::make_shared<OptionBuilder>(opts, buf, content);
+      if (what == "null") b->null(); else b->integer(x);
+      printf("{\"outcome\": \"ok\", \"len\": %lld, \"last\": %lld, \"first_ok\": %d, \"begun\": 0, \"content\": %lld}\n", (long long)b->index_.length(), (long long)b->index_.getitem_at_nowrap(n),
+             (int)(n == 0 || b->index_.getitem_at_nowrap(0) == 1000), (long long)content->n);
+    }
+  } catch (std::exception& e) { printf("{\"outcome\": \"raised\"}\n"); }
+  fflush(stdout); _Exit(0);
+}
+'''
+
+
+def native_step(what, n, L, x):
+    import subprocess, os, json
+    srcs = [RB, LB, OB, GB, 'src/libawkward/builder/Builder.cpp', 'src/libawkward/builder/ArrayBuilderOptions.cpp', 'src/libawkward/kernel-dispatch.cpp']
+    exe = build.compile_objs_driver(NATIVE_STEP, srcs)
+    r = subprocess.run([exe, what, str(n), str(L), str(x)], capture_output=True, text=True, timeout=30,
+                       env=dict(os.environ, ASAN_OPTIONS='detect_leaks=0', UBSAN_OPTIONS='halt_on_error=1:exitcode=87'), errors='replace')
+    try:
+        return json.loads(r.stdout.strip().splitlines()[-1])
+    except (ValueError, IndexError):
+        return dict(outcome='crash(%d)' % r.returncode, log=r.stderr[-300:])
+
+
+def step_replay(what, nvar, Lvar, xvar=None):
+    def replay(model, ent):
+        ev = lambda t: model.eval(t, model_completion=True).as_signed_long()
+        n, L = ev(nvar), ev(Lvar)
+        x = ev(xvar) if xvar is not None else 0
+        if n > 5000:
+            return False, 'buffer too long to replay', {}
+        res = native_step(what, n, L, x)
+        want_last = L if what in ('list', 'integer') else -1
+        want_content = L + 1 if what == 'integer' else L
+        payload = dict(step=what, entries=n, content_length=L, native=res)
+        if res.get('outcome') != 'ok' or res.get('len') != n + 1 or res.get('last') != want_last or not res.get('first_ok') or res.get('content') != want_content or res.get('begun'):
+            return True, '%s step with %d entries and a content of %d: native builder gives %s; expected %d entries, last = %d, content length %d' % (what, n, L, res, n + 1, want_last, want_content), payload
+        return False, 'native builder agrees (%s)' % res, payload
+    return replay
+
+
+_jobs_records = jobs
+
+
+def jobs(tier):
+    return _jobs_records(tier) + [(h_list_endlist, (), 600), (h_option_step, ('null',), 600), (h_option_step, ('integer',), 600)]
